@@ -192,7 +192,9 @@ def genAdatCase (c : Cfg) (flavour : String) (rp : List Byte) (mask count : Nat)
   | none => "bad-case"
   | some t =>
     let flags := UInt8.ofNat (flagByte Gen.flagsAuthenticatorDataFlags mask)
-    match authDataSerialize Gen.c_AUTHENTICATOR_DATA_LENGTH rp flags count acd (ext.map fun v => [encode t v]) with
+    -- the layouts as read off the source, interpreted
+    match runLayout Gen.c_AUTHENTICATOR_DATA_LENGTH
+            (adEnvWith Gen.layoutAttested rp flags count acd (ext.map fun v => [encode t v])) Gen.layoutAuthData [] with
     | some b => "ok " ++ toHex b
     | none => s!"err {Gen.statusSerializeError}"
 
@@ -208,7 +210,8 @@ def specAdatCase (c : Cfg) (flavour : String) (rp : List Byte) (mask count : Nat
     | none => s!"err {Spec.statusOther}"
 
 def genU2fsCase (cap : Nat) (prior : List Byte) (r : U2fResp) : String :=
-  let (buf, ok) := u2fSerialize cap r prior
+  let (buf, ok) := runFlat cap (u2fBytes r) (u2fNum r)
+    (u2fLayout Gen.layoutU2fRegister Gen.layoutU2fAuthenticate Gen.layoutU2fVersion r) prior
   (if ok then "ok " else "err ") ++ hexOrDash buf
 
 /-- oracle: all-or-nothing append of the specified layout; on failure only the prefix property is
